@@ -104,12 +104,13 @@ def finish (c : Cfg) (n : Node) (ws : List SW) (sh : SHeader) (d : Data) (lastDa
     | none =>
       let w1 := SW.saveBlock sh'.hdr.height (Block.mk sh' d' sh'.sig)
       let s1 := n.store.apply w1
-      let w2 := setHeightW s1 sh'.hdr.height
-      let s2 := s1.applyAll w2
+      -- the new state is persisted before the store height is advanced (a crash in between is repaired at start-up)
       let st' := { newState with daHeight := n.daHeight }
-      let w3 := SW.updateState st'
-      let s3 := s2.apply w3
-      ({ n with store := s3, lastState := st' }, ws ++ [w1] ++ w2 ++ [w3], .ok)
+      let w2 := SW.updateState st'
+      let s2 := s1.apply w2
+      let w3 := setHeightW s2 sh'.hdr.height
+      let s3 := s2.applyAll w3
+      ({ n with store := s3, lastState := st' }, ws ++ [w1, w2] ++ w3, .ok)
 
 /-- what the step reads about the previous block: (last signature, last header hash, last data hash,
 last header time); for the first block there is no predecessor -/
@@ -141,7 +142,7 @@ def fresh (c : Cfg) (n : Node) (lastSig : Sig) (lastHeaderHash lastDataHash : By
   | .batch txs ts bd =>
     let w0 := SW.setMeta lastBatchDataKey (batchDataToBytes bd)
     let n0 : Node := { n with store := n.store.apply w0, lastBatchData := bd }
-    if !txs.isEmpty && regressed lastHeaderTime ts then (n0, [w0], .errTime)
+    if regressed lastHeaderTime ts then (n0, [w0], .errTime)   -- empty batches are subject to the guard as well
     else if c.signerAddr ≠ c.proposerAddr then (n0, [w0], .errSigner)
     else buildAndFinish c n0 w0 lastSig lastHeaderHash lastDataHash txs ts ex
 
@@ -189,10 +190,18 @@ def start (c : Cfg) (disk : Store) (daStart : Nat := 0) : Except StartErr (Node 
     let d2 := d1.applyAll ws2
     match wmOf d2 hdrWmKey, wmOf d2 dataWmKey with
     | some hw, some dw =>
-      let lbd := ((d2.getMeta lastBatchDataKey).bind bytesToBatchData).getD []
+      -- heights below the initial height do not exist: both watermarks start at initialHeight - 1 (persisted when raised)
+      let base := c.initialHeight - 1
+      let wh : List SW := if c.initialHeight > 1 ∧ base > hw then [.setMeta hdrWmKey (le64 base)] else []
+      let d3 := d2.applyAll wh
+      let wd : List SW := if c.initialHeight > 1 ∧ base > dw then [.setMeta dataWmKey (le64 base)] else []
+      let d4 := d3.applyAll wd
+      let hw' := if c.initialHeight > 1 ∧ base > hw then base else hw
+      let dw' := if c.initialHeight > 1 ∧ base > dw then base else dw
+      let lbd := ((d4.getMeta lastBatchDataKey).bind bytesToBatchData).getD []
       let s' := if s.daHeight < daStart then { s with daHeight := daStart } else s
-      .ok ({ store := d2, lastState := s', lastBatchData := lbd, hdrWm := hw, dataWm := dw, daHeight := s'.daHeight },
-           ws1 ++ ws2)
+      .ok ({ store := d4, lastState := s', lastBatchData := lbd, hdrWm := hw', dataWm := dw', daHeight := s'.daHeight },
+           ws1 ++ ws2 ++ wh ++ wd)
     | _, _ => .error .badWatermark
 
 end Producer
